@@ -54,7 +54,7 @@ fn main() {
     // frames, so the address of a local says nothing about the stack depth
     #[cfg(all(minicbor_verif, have_stack_hook, not(verif_no_alloc_monitor)))]
     mon::register_stack_hook(minicbor::verif::stack_reset, minicbor::verif::stack_low);
-    let wd: u64 = std::env::var("VERIF_WATCHDOG_SECS").ok().and_then(|s| s.parse().ok()).unwrap_or(300);
+    let wd: u64 = std::env::var("VERIF_WATCHDOG_SECS").ok().and_then(|s| s.parse().ok()).unwrap_or(600);
     if wd > 0 {
         mon::start_watchdog(wd);
     }
